@@ -107,7 +107,8 @@ FsDecV(v, isResp) ==
         THEN LET l3 == LvDec(r2) IN
              IF ~l3.ok \/ l3.n # Len(r2) \/ ~FsStatusOk(action, status) THEN Rej(<<"value">>)
              ELSE Acc([action |-> action, status |-> status, n1 |-> l1.v, n2 |-> l2.v, msg |-> l3.v], Len(v))
-        ELSE IF r2 # <<>> THEN Rej(<<"value">>)
+        \* octets after the last name inside a request's value: refusing or ignoring them are both left unjudged ("lax")
+        ELSE IF r2 # <<>> THEN [ok |-> FALSE, rej |-> <<"value">>, lax |-> [action |-> action, n1 |-> l1.v, n2 |-> l2.v]]
              ELSE Acc([action |-> action, n1 |-> l1.v, n2 |-> l2.v], Len(v))
 
 (***************************************************************************)
@@ -330,7 +331,7 @@ CfdpOps == {"cfdphdr.rt", "cfdphdr.unpack", "lv.rt", "lv.unpack", "tlv.rt", "tlv
             "ctlv.mismatch", "pdu.rt", "pdu.fac", "pdu.unpack", "holder.matrix", "fd.maxseg", "nak.maxsegs"}
 
 KindOrder == <<"eof", "finished", "ack", "metadata", "nak", "prompt", "keepalive", "filedata">>
-WithSfx(full, sfx, fams) == IF sfx = <<>> THEN full ELSE [anyof |-> <<full, [rej |-> fams]>>]
+WithSfx(full, sfx, fams) == IF sfx = <<>> THEN full ELSE [anyof |-> <<full, [rej |-> fams, late |-> TRUE]>>]
 DocFams == <<"value", "crc", "version", "tlvtype">>
 
 CfdpExp(op, a) ==
@@ -359,7 +360,13 @@ CfdpExp(op, a) ==
               [octets |-> w, plen |-> Len(w), dec |-> a.p, dplen |-> Len(w), repack |-> w, eq |-> TRUE,
                t |-> CtlvType(a.cls)]
     [] op = "ctlv.unpack" ->
-         LET d == CtlvDec(a.cls, a.octets) IN IF d.ok THEN [p |-> d.v, plen |-> d.n] ELSE ExpRej(d.rej)
+         LET d == CtlvDec(a.cls, a.octets)
+             t == TlvDec(a.octets)
+             r == IF a.cls = "fsreq" /\ t.ok /\ t.v.t = T_FsReq THEN FsDecV(t.v.v, FALSE) ELSE [ok |-> TRUE]
+         IN IF d.ok THEN [p |-> d.v, plen |-> d.n]
+            \* accepted although not canonical: the object must then report the length of what it packs itself
+            ELSE IF "lax" \in DOMAIN r THEN [anyof |-> <<[p |-> r.lax, plen |-> Len(CtlvEnc("fsreq", r.lax))], ExpRej(d.rej)>>]
+            ELSE ExpRej(d.rej)
     [] op = "ctlv.mismatch" ->
          \* a.octets is a well-formed TLV of a type other than the class's
          IF a.via = "holder" THEN ExpRej(<<"tlvtype", "type">>) ELSE ExpRej(<<"tlvtype">>)
@@ -519,6 +526,10 @@ TlvGridPart(i) ==
                 \cup {[op |-> "ctlv.unpack", a |-> [cls |-> "fsreq", octets |-> TlvEnc(0, <<32, 1, 97>>) \o <<1, 98>>, via |-> v]] : v \in Vias}
                 \cup {[op |-> "ctlv.unpack", a |-> [cls |-> "fsresp", octets |-> TlvEnc(1, <<0, 1, 97>>) \o <<2, 111, 107>>, via |-> v]] : v \in Vias}
                 \cup {[op |-> "ctlv.unpack", a |-> [cls |-> "fsresp", octets |-> TlvEnc(1, <<48, 1, 97>>) \o <<1, 98, 0>>, via |-> "unpack"]]}
+                \cup {[op |-> "ctlv.unpack", a |-> [cls |-> "fsreq", octets |-> TlvEnc(0, v), via |-> w]] :
+                        v \in {<<0, 1, 97, 9>>, <<32, 1, 97, 1, 98, 7, 7>>, <<80, 0, 0>>}, w \in Vias}
+                \* a request whose spare nibble is not zero: if accepted, the decoded object must still report its own packed length
+                \cup {[op |-> "ctlv.unpack", a |-> [cls |-> "fsreq", octets |-> TlvEnc(0, <<2 * 16 + sp, 1, 97, 1, 98>>), via |-> v]] : sp \in {1, 5, 15}, v \in Vias}
 
 SizeGrid == {<<0>>, <<1, 0>>, <<255, 255, 255, 255>>, <<1, 0, 0, 0, 0>>, IdFF(8), <<1, 0, 0, 0, 0, 0, 0, 0, 0>>}
 SizeFew == {<<0>>, <<1, 2, 3, 4>>}
